@@ -86,6 +86,7 @@ structure DInv (s : State) : Prop where
   thr : 8 ≤ rank s.ph → s.thrDone = true
   ic : s.ph = .waitFork → s.ingestClosed = true
   frl : s.forkRL = true → s.forkHand = 1 ∨ s.forkLoop = 1
+  fh1 : s.forkHand ≤ 1 ∧ s.forkLoop ≤ 1
 
 theorem dinv_nodeAct {cfg} {s s' : State} {i : Nat} {a : NAct} (h : step cfg s (.node i a) = some s')
     (hleak : cfg.alertLeak = false) (hd : DInv s) : DInv s' := by
@@ -114,7 +115,7 @@ theorem dinv_nodeAct {cfg} {s s' : State} {i : Nat} {a : NAct} (h : step cfg s (
       · exact Or.inr (Or.inr ⟨a, b⟩)) (hd.pairs i nd c g1 hc1) (hd.nodes _ c hc1)
     have hf := ChildEff'.facts e2
     exact ⟨hD.1, ⟨hD.2.1, hD.2.2⟩, hf⟩
-  refine ⟨?_, ?_, ?_, ?_, ?_, ?_, ?_, ?_, ?_, ?_, ?_, ?_, ?_⟩
+  refine ⟨?_, ?_, ?_, ?_, ?_, ?_, ?_, ?_, ?_, ?_, ?_, ?_, ?_, ?_⟩
   · intro k x hk
     rw [hnodes'] at hk
     rcases hnode k x hk with ⟨_, _, h0⟩ | ⟨_, rfl⟩ | ⟨_, c, hc1, e1, _⟩
@@ -202,6 +203,9 @@ theorem dinv_nodeAct {cfg} {s s' : State} {i : Nat} {a : NAct} (h : step cfg s (
     have e2 : s'.forkHand = s.forkHand := by rw [← h]
     have e3 : s'.forkLoop = s.forkLoop := by rw [← h]
     rw [e2, e3]; exact hd.frl (by rw [← e1]; exact h3)
+  · have e2 : s'.forkHand = s.forkHand := by rw [← h]
+    have e3 : s'.forkLoop = s.forkLoop := by rw [← h]
+    rw [e2, e3]; exact hd.fh1
 
 /-- The stopping goroutine modifies node `i` (flush / close w.stopping / abort the UDF) and moves on. -/
 theorem dinv_modify_at {s s' : State} (hd : DInv s) (i : Nat) (f : Nd → Nd)
@@ -231,7 +235,7 @@ theorem dinv_modify_at {s s' : State} (hd : DInv s) (i : Nat) (f : Nd → Nd)
       | none => simp [h0] at hk
       | some x0 => simp [h0] at hk; exact ⟨x0, rfl, Or.inl ⟨by assumption, hk.symm⟩⟩
     · exact ⟨x, hk, Or.inr ⟨by assumption, rfl⟩⟩
-  refine ⟨?_, ?_, ?_, ?_, ?_, ?_, ?_, ?_, ?_, ?_, ?_, ?_, ?_⟩
+  refine ⟨?_, ?_, ?_, ?_, ?_, ?_, ?_, ?_, ?_, ?_, ?_, ?_, ?_, ?_⟩
   · intro k x hk
     obtain ⟨x0, h0, ⟨rfl, rfl⟩ | ⟨_, rfl⟩⟩ := hget k x hk
     · exact hD x0 h0
@@ -286,6 +290,7 @@ theorem dinv_modify_at {s s' : State} (hd : DInv s) (i : Nat) (f : Nd → Nd)
   · rw [hrank, hglob.2.2.1]; exact hd.thr
   · intro h; exact absurd h hwf
   · rw [hglob.2.2.2.1, hglob.2.2.2.2.1, hglob.2.2.2.2.2]; exact hd.frl
+  · rw [hglob.2.2.2.2.1, hglob.2.2.2.2.2]; exact hd.fh1
 
 /-- A transition that leaves the nodes alone. -/
 theorem dinv_phase {s s' : State} (hd : DInv s) (hn : s'.nodes = s.nodes)
@@ -298,8 +303,8 @@ theorem dinv_phase {s s' : State} (hd : DInv s) (hn : s'.nodes = s.nodes)
     (hfl : ∀ j, s'.ph ≠ .flushed j)
     (lk : rank s'.ph ≤ 3 → s'.lockHeld = false) (ets : 6 ≤ rank s'.ph → s'.etStopping = true)
     (thr : 8 ≤ rank s'.ph → s'.thrDone = true) (ic : s'.ph = .waitFork → s'.ingestClosed = true)
-    (frl : s'.forkRL = true → s'.forkHand = 1 ∨ s'.forkLoop = 1) : DInv s' := by
-  refine ⟨?_, ?_, ?_, ?_, ?_, ?_, ?_, ?_, lk, ets, thr, ic, frl⟩
+    (frl : s'.forkRL = true → s'.forkHand = 1 ∨ s'.forkLoop = 1) (fh1 : s'.forkHand ≤ 1 ∧ s'.forkLoop ≤ 1) : DInv s' := by
+  refine ⟨?_, ?_, ?_, ?_, ?_, ?_, ?_, ?_, lk, ets, thr, ic, frl, fh1⟩
   · intro k x hk; rw [hn] at hk; exact hd.nodes k x hk
   · intro k x y hk hk1; rw [hn] at hk hk1; exact hd.pairs k x y hk hk1
   · intro x hx; rw [hn] at hx; exact hfirst x hx
@@ -319,14 +324,14 @@ theorem dinv_stopStep {cfg} {s s' : State} (h : stopStep cfg s = some s') (hd : 
     simp only [stopStep, hph] at h
     simp only [Option.some.injEq] at h; subst h
     have hlk := hd.lk (by simp [hph, rank])
-    refine dinv_phase hd rfl ?_ ?_ ?_ ?_ ?_ ?_ ?_ ?_ ?_ ?_ hd.frl
+    refine dinv_phase hd rfl ?_ ?_ ?_ ?_ ?_ ?_ ?_ ?_ ?_ ?_ hd.frl hd.fh1
     · intro nd h0; have := hd.first nd h0; refine ⟨this.1, ?_⟩; split <;> simp [rank]
     all_goals (split <;> simp_all [doneBy, abortedBy, joinedBy, Ph.idx, rank])
   | closeIngest =>
     simp only [stopStep, hph] at h
     simp only [Option.some.injEq] at h; subst h
     have hlk := hd.lk (by simp [hph, rank])
-    refine dinv_phase hd rfl ?_ ?_ ?_ ?_ ?_ ?_ ?_ ?_ ?_ ?_ hd.frl
+    refine dinv_phase hd rfl ?_ ?_ ?_ ?_ ?_ ?_ ?_ ?_ ?_ ?_ hd.frl hd.fh1
     · intro nd h0; have := hd.first nd h0; exact ⟨this.1, by simp [rank]⟩
     all_goals (simp_all [doneBy, abortedBy, joinedBy, Ph.idx, rank])
   | waitFork =>
@@ -334,7 +339,7 @@ theorem dinv_stopStep {cfg} {s s' : State} (h : stopStep cfg s = some s') (hd : 
     split at h
     · simp only [Option.some.injEq] at h; subst h
       have hlk := hd.lk (by simp [hph, rank])
-      refine dinv_phase hd rfl ?_ ?_ ?_ ?_ ?_ ?_ ?_ ?_ ?_ ?_ hd.frl
+      refine dinv_phase hd rfl ?_ ?_ ?_ ?_ ?_ ?_ ?_ ?_ ?_ ?_ hd.frl hd.fh1
       · intro nd h0; have := hd.first nd h0; exact ⟨this.1, by simp [rank]⟩
       all_goals (simp_all [doneBy, abortedBy, joinedBy, Ph.idx, rank])
     · simp at h
@@ -342,7 +347,7 @@ theorem dinv_stopStep {cfg} {s s' : State} (h : stopStep cfg s = some s') (hd : 
     simp only [stopStep, hph] at h
     split at h
     · simp only [Option.some.injEq] at h; subst h
-      refine dinv_phase hd rfl ?_ ?_ ?_ ?_ ?_ ?_ ?_ ?_ ?_ ?_ hd.frl
+      refine dinv_phase hd rfl ?_ ?_ ?_ ?_ ?_ ?_ ?_ ?_ ?_ ?_ hd.frl hd.fh1
       · intro nd h0; have := hd.first nd h0; exact ⟨this.1, by simp [rank]⟩
       all_goals (simp_all [doneBy, abortedBy, joinedBy, Ph.idx, rank])
     · simp at h
@@ -351,7 +356,7 @@ theorem dinv_stopStep {cfg} {s s' : State} (h : stopStep cfg s = some s') (hd : 
     split at h
     · simp only [Option.some.injEq] at h; subst h
       have := hd.ets (by simp [hph, rank])
-      refine dinv_phase hd rfl ?_ ?_ ?_ ?_ ?_ ?_ ?_ ?_ ?_ ?_ hd.frl
+      refine dinv_phase hd rfl ?_ ?_ ?_ ?_ ?_ ?_ ?_ ?_ ?_ ?_ hd.frl hd.fh1
       · intro nd h0; have := hd.first nd h0; rw [hph] at this; exact ⟨this.1, fun _ => this.2 (by simp [rank])⟩
       · intro k nd hk _; exact hd.doneP k nd hk (by simp [hph, doneBy])
       · intro k nd hk _; simp [hph, abortedBy]
@@ -363,7 +368,7 @@ theorem dinv_stopStep {cfg} {s s' : State} (h : stopStep cfg s = some s') (hd : 
     simp only [Option.some.injEq] at h; subst h
     have := hd.ets (by simp [hph, rank])
     have := hd.thr (by simp [hph, rank])
-    refine dinv_phase hd rfl ?_ ?_ ?_ ?_ ?_ ?_ ?_ ?_ ?_ ?_ hd.frl
+    refine dinv_phase hd rfl ?_ ?_ ?_ ?_ ?_ ?_ ?_ ?_ ?_ ?_ hd.frl hd.fh1
     · intro nd h0; have := hd.first nd h0; rw [hph] at this; exact ⟨this.1, fun _ => this.2 (by simp [rank])⟩
     · intro k nd hk _; exact hd.doneP k nd hk (by simp [hph, doneBy])
     · intro k nd hk _; simp [hph, abortedBy]
@@ -382,7 +387,7 @@ theorem dinv_stopStep {cfg} {s s' : State} (h : stopStep cfg s = some s') (hd : 
       cases h0 : s.nodes[0]? with
       | none => simp [h0] at hx
       | some x0 => simp [h0] at hx; exact ⟨x0, rfl, hx.symm⟩
-    refine ⟨?_, ?_, ?_, ?_, ?_, ?_, ?_, ?_, ?_, ?_, ?_, ?_, ?_⟩
+    refine ⟨?_, ?_, ?_, ?_, ?_, ?_, ?_, ?_, ?_, ?_, ?_, ?_, ?_, ?_⟩
     · intro k x hk
       by_cases hk0 : k = 0
       · subst hk0; obtain ⟨x0, h0, rfl⟩ := hz x hk; exact (hd.nodes 0 x0 h0).closeIn
@@ -416,17 +421,18 @@ theorem dinv_stopStep {cfg} {s s' : State} (h : stopStep cfg s = some s') (hd : 
     · simp [rank]
     · simp
     · exact hd.frl
+    · exact hd.fh1
   | etStop =>
     simp only [stopStep, hph] at h
     simp only [Option.some.injEq] at h; subst h
     by_cases hne : s.nodes.isEmpty = true
     · have hnil : s.nodes = [] := by simpa [List.isEmpty_iff] using hne
-      refine dinv_phase hd rfl ?_ ?_ ?_ ?_ ?_ ?_ ?_ ?_ ?_ ?_ hd.frl <;> simp_all [doneBy, abortedBy, joinedBy, Ph.idx, rank]
+      refine dinv_phase hd rfl ?_ ?_ ?_ ?_ ?_ ?_ ?_ ?_ ?_ ?_ hd.frl hd.fh1 <;> simp_all [doneBy, abortedBy, joinedBy, Ph.idx, rank]
     · have hlen : 0 < s.nodes.length := by
         cases hn : s.nodes with
         | nil => simp [hn] at hne
         | cons _ _ => simp
-      refine dinv_phase hd rfl ?_ ?_ ?_ ?_ ?_ ?_ ?_ ?_ ?_ ?_ hd.frl
+      refine dinv_phase hd rfl ?_ ?_ ?_ ?_ ?_ ?_ ?_ ?_ ?_ ?_ hd.frl hd.fh1
       · intro nd h0; have := hd.first nd h0; rw [hph] at this
         exact ⟨this.1, fun _ => this.2 (by simp [rank])⟩
       all_goals (simp_all [doneBy, abortedBy, joinedBy, Ph.idx, rank])
@@ -436,7 +442,7 @@ theorem dinv_stopStep {cfg} {s s' : State} (h : stopStep cfg s = some s') (hd : 
     all_goals (first | (simp at h; done) | (simp only [Option.some.injEq] at h; subst h))
     rename_i ndi hndi hhd
     have := hd.ets (by simp [hph, rank])
-    refine dinv_phase hd rfl ?_ ?_ ?_ ?_ ?_ ?_ ?_ ?_ ?_ ?_ hd.frl
+    refine dinv_phase hd rfl ?_ ?_ ?_ ?_ ?_ ?_ ?_ ?_ ?_ ?_ hd.frl hd.fh1
     · intro nd h0; have := hd.first nd h0; rw [hph] at this; exact ⟨this.1, fun _ => this.2 (by simp [rank])⟩
     · intro k nd hk hdb; exact hd.doneP k nd hk (by simpa [hph, doneBy] using hdb)
     · intro k nd hk _; simp [hph, abortedBy]
@@ -454,7 +460,7 @@ theorem dinv_stopStep {cfg} {s s' : State} (h : stopStep cfg s = some s') (hd : 
     all_goals (rename_i ndi hndi hdone hlt)
     all_goals (have hets := hd.ets (by simp [hph, rank]))
     · -- next node
-      refine dinv_phase hd rfl ?_ ?_ ?_ ?_ ?_ ?_ ?_ ?_ ?_ ?_ hd.frl
+      refine dinv_phase hd rfl ?_ ?_ ?_ ?_ ?_ ?_ ?_ ?_ ?_ ?_ hd.frl hd.fh1
       · intro nd h0; have := hd.first nd h0; rw [hph] at this; exact ⟨this.1, fun _ => this.2 (by simp [rank])⟩
       · intro k nd hk hdb
         simp only [doneBy, decide_eq_true_eq] at hdb
@@ -476,7 +482,7 @@ theorem dinv_stopStep {cfg} {s s' : State} (h : stopStep cfg s = some s') (hd : 
           · exact h
           · rw [List.getElem?_eq_none_iff.mpr h] at hk; simp at hk
         omega
-      refine dinv_phase hd rfl ?_ ?_ ?_ ?_ ?_ ?_ ?_ ?_ ?_ ?_ hd.frl
+      refine dinv_phase hd rfl ?_ ?_ ?_ ?_ ?_ ?_ ?_ ?_ ?_ ?_ hd.frl hd.fh1
       · intro nd h0; have := hd.first nd h0; rw [hph] at this; exact ⟨this.1, fun _ => this.2 (by simp [rank])⟩
       · intro k nd hk _
         by_cases hki' : k = i
@@ -512,7 +518,7 @@ theorem dinv_stopStep {cfg} {s s' : State} (h : stopStep cfg s = some s') (hd : 
     have hother : (isInflux ndi.kind = false) → (isUdf ndi.kind = false) → s' = { s with ph := .wait i } → DInv s' := by
       intro hnotinflux hnotudf e; subst e
       have hets := hd.ets (by simp [hph, rank])
-      refine dinv_phase hd rfl ?_ ?_ ?_ ?_ ?_ ?_ ?_ ?_ ?_ ?_ hd.frl
+      refine dinv_phase hd rfl ?_ ?_ ?_ ?_ ?_ ?_ ?_ ?_ ?_ ?_ hd.frl hd.fh1
       · intro nd h0; have := hd.first nd h0; rw [hph] at this; exact ⟨this.1, fun _ => this.2 (by simp [rank])⟩
       · intro k nd hk hdb; exact hd.doneP k nd hk (by simpa [hph, doneBy] using hdb)
       · intro k nd hk hkk
@@ -576,5 +582,138 @@ theorem dinv_stopStep {cfg} {s s' : State} (h : stopStep cfg s = some s') (hd : 
     | alert H => simp only [hkind] at h; exact hother (by simp [hkind, isInflux]) (by simp [hkind, isUdf]) (by simpa using h.symm)
     | fail K => simp only [hkind] at h; exact hother (by simp [hkind, isInflux]) (by simp [hkind, isUdf]) (by simpa using h.symm)
     | loop => simp only [hkind] at h; exact hother (by simp [hkind, isInflux]) (by simp [hkind, isUdf]) (by simpa using h.symm)
+
+/-- Global actions that leave nodes and phase alone. -/
+theorem dinv_glob {s s' : State} (hd : DInv s) (hn : s'.nodes = s.nodes) (hph : s'.ph = s.ph)
+    (hreg : s'.registered = s.registered) (hlk : s'.lockHeld = s.lockHeld) (hets : s'.etStopping = s.etStopping)
+    (hthr : s.thrDone = true → s'.thrDone = true) (hic : s.ingestClosed = true → s'.ingestClosed = true)
+    (frl : s'.forkRL = true → s'.forkHand = 1 ∨ s'.forkLoop = 1) (fh1 : s'.forkHand ≤ 1 ∧ s'.forkLoop ≤ 1) : DInv s' := by
+  refine ⟨?_, ?_, ?_, ?_, ?_, ?_, ?_, ?_, ?_, ?_, ?_, ?_, frl, fh1⟩
+  · intro k x hk; rw [hn] at hk; exact hd.nodes k x hk
+  · intro k x y hk hk1; rw [hn] at hk hk1; exact hd.pairs k x y hk hk1
+  · intro x hx; rw [hn] at hx; rw [hreg, hph]; exact hd.first x hx
+  · intro k x hk; rw [hn] at hk; rw [hph]; exact hd.doneP k x hk
+  · intro k x hk; rw [hn] at hk; rw [hph]; exact hd.stopP k x hk
+  · intro k x hk; rw [hn] at hk; rw [hph]; exact hd.joinP k x hk
+  · intro j hj; rw [hn]; rw [hph] at hj; exact hd.idxV j hj
+  · intro j x hfl hk; rw [hn] at hk; rw [hph] at hfl; exact hd.flK j x hfl hk
+  · rw [hph, hlk]; exact hd.lk
+  · rw [hph, hets]; exact hd.ets
+  · rw [hph]; exact fun h => hthr (hd.thr h)
+  · rw [hph]; exact fun h => hic (hd.ic h)
+
+/-- **The protocol invariant is preserved by every action.** -/
+theorem dinv_step {cfg} {s s' : State} {a : Act} (h : step cfg s a = some s') (hleak : cfg.alertLeak = false)
+    (hd : DInv s) : DInv s' := by
+  cases a with
+  | stop => exact dinv_stopStep h hd
+  | node i a => exact dinv_nodeAct h hleak hd
+  | write =>
+    simp only [step] at h
+    split at h
+    · simp only [Option.some.injEq] at h; subst h
+      exact dinv_glob hd rfl rfl rfl rfl rfl (fun h => h) (fun h => h) hd.frl hd.fh1
+    · simp at h
+  | forkTake =>
+    simp only [step] at h
+    repeat' (first | contradiction | split at h)
+    all_goals (first | (simp at h; done) | (simp only [Option.some.injEq] at h; subst h))
+    · rename_i hc _
+      refine dinv_glob hd rfl rfl rfl rfl rfl (fun h => h) (fun h => h) ?_ ?_
+      · intro _; exact Or.inl rfl
+      · simp_all
+    · rename_i hc _ _
+      refine dinv_glob hd rfl rfl rfl rfl rfl (fun h => h) (fun h => h) ?_ ?_
+      · intro _; exact Or.inr rfl
+      · simp_all
+  | forkLock =>
+    simp only [step] at h
+    split at h
+    · simp only [Option.some.injEq] at h; subst h
+      rename_i hc
+      refine dinv_glob hd rfl rfl rfl rfl rfl (fun h => h) (fun h => h) ?_ hd.fh1; intro _; exact hc.1
+    · simp at h
+  | forkDrop =>
+    simp only [step] at h
+    repeat' (first | contradiction | split at h)
+    all_goals (first | (simp at h; done) | (simp only [Option.some.injEq] at h; subst h))
+    refine dinv_glob hd rfl rfl rfl rfl rfl (fun h => h) (fun h => h) ?_ ?_
+    · intro h; simp at h
+    · have := hd.fh1; simp; exact this.2
+  | forkExit =>
+    simp only [step] at h
+    split at h
+    · simp only [Option.some.injEq] at h; subst h
+      exact dinv_glob hd rfl rfl rfl rfl rfl (fun h => h) (fun h => h) hd.frl hd.fh1
+    · simp at h
+  | thrExit =>
+    simp only [step] at h
+    split at h
+    · simp only [Option.some.injEq] at h; subst h
+      exact dinv_glob hd rfl rfl rfl rfl rfl (fun _ => rfl) (fun h => h) hd.frl hd.fh1
+    · simp at h
+  | forkPut =>
+    simp only [step] at h
+    repeat' (first | contradiction | split at h)
+    all_goals (first | (simp at h; done) | (simp only [Option.some.injEq] at h; subst h))
+    · refine dinv_glob hd rfl rfl rfl rfl rfl (fun h => h) (fun h => h) ?_ ?_
+      · intro h; simp at h
+      · have := hd.fh1; simp; exact this.1
+    · refine dinv_glob hd rfl rfl rfl rfl rfl (fun h => h) (fun h => h) ?_ ?_
+      · intro h; simp at h
+      · have := hd.fh1; simp; exact this.2
+    · rename_i nd rest hnodes hcap
+      have h0 : s.nodes[0]? = some nd := by rw [hnodes]; rfl
+      have hreg : s.registered = true := by simp_all
+      have hfi := hd.first nd h0
+      have hncl : nd.inClosed = false := by
+        cases hcl : nd.inClosed with
+        | false => rfl
+        | true => have := hfi.1 hcl; simp_all
+      have hs : ∀ k, k ≠ 0 → ({ nd with inq := nd.inq + 1, ent := nd.ent + 1 } :: rest)[k]? = s.nodes[k]? := by
+        intro k hk; rw [hnodes]; cases k with
+        | zero => exact absurd rfl hk
+        | succ k => simp
+      refine ⟨?_, ?_, ?_, ?_, ?_, ?_, ?_, ?_, ?_, ?_, ?_, ?_, ?_, ?_⟩
+      · intro k x hk
+        cases k with
+        | zero =>
+          simp at hk; subst hk
+          obtain ⟨h1, ab, fa, dn, fh, al, ah, ad, as, nh, ih, nl⟩ := hd.nodes 0 nd h0
+          constructor <;> simp_all <;> (try grind)
+        | succ k => rw [hs (k+1) (by omega)] at hk; exact hd.nodes _ x hk
+      · intro k x y hk hk1
+        rw [hs (k+1) (by omega)] at hk1
+        cases k with
+        | zero =>
+          simp at hk; subst hk
+          have := hd.pairs 0 nd y h0 hk1
+          unfold DPair at *; simpa using this
+        | succ k => rw [hs (k+1) (by omega)] at hk; exact hd.pairs _ x y hk hk1
+      · intro x hx; simp at hx; subst hx
+        simpa using hfi
+      · intro k x hk hdb
+        cases k with
+        | zero => simp at hk; subst hk; simpa using hd.doneP 0 nd h0 hdb
+        | succ k => rw [hs (k+1) (by omega)] at hk; exact hd.doneP _ x hk hdb
+      · intro k x hk hkind
+        cases k with
+        | zero => simp at hk; subst hk; simpa using hd.stopP 0 nd h0 (by simpa using hkind)
+        | succ k => rw [hs (k+1) (by omega)] at hk; exact hd.stopP _ x hk hkind
+      · intro k x hk hkind hj
+        cases k with
+        | zero => simp at hk; subst hk; simpa using hd.joinP 0 nd h0 (by simpa using hkind) hj
+        | succ k => rw [hs (k+1) (by omega)] at hk; exact hd.joinP _ x hk hkind hj
+      · intro j hj; have := hd.idxV j hj; rw [hnodes] at this; simpa using this
+      · intro j x hfl hk
+        cases j with
+        | zero => simp at hk; subst hk; simpa using hd.flK 0 nd hfl h0
+        | succ j => rw [hs (j+1) (by omega)] at hk; exact hd.flK _ x hfl hk
+      · exact hd.lk
+      · exact hd.ets
+      · exact hd.thr
+      · exact hd.ic
+      · intro h; simp at h
+      · have := hd.fh1; simp; exact this.2
 
 end Kap.C07
